@@ -81,6 +81,9 @@ func (w *World) modelOnly(op Op) {
 		if okAll {
 			m.SaveVersion()
 		}
+	case OpColdDelTo:
+		m.Reopen()
+		m.DeleteVersionsTo(op.Ver)
 	case OpColdDelFrom:
 		m.Reopen()
 		if m.Has(op.Ver) {
